@@ -26,28 +26,19 @@ func idOf(fn *ssa.Function) funcID {
 	if fn == nil {
 		return funcID{}
 	}
-	o := fn
-	if fn.Origin() != nil {
-		o = fn.Origin()
-	}
-	id := funcID{name: o.Name()}
-	if o.Pkg != nil {
-		id.pkg = o.Pkg.Pkg.Path()
-	} else if o.Object() != nil && o.Object().Pkg() != nil {
-		id.pkg = o.Object().Pkg().Path()
-	}
-	if sig := o.Signature; sig != nil && sig.Recv() != nil {
-		id.recv = typeName(sig.Recv().Type())
-	}
-	return id
+	return canonFuncID(rawIDOf(fn))
 }
 
+// typeName: the (reference-tree) name of a named type, looking through one pointer.
 func typeName(t types.Type) string {
 	t = types.Unalias(t)
 	if p, ok := t.(*types.Pointer); ok {
 		t = types.Unalias(p.Elem())
 	}
 	if n, ok := t.(*types.Named); ok {
+		if len(renameType) > 0 && n.Obj().Pkg() != nil {
+			return canonTypeName(n.Obj().Pkg().Path(), n.Obj().Name())
+		}
 		return n.Obj().Name()
 	}
 	return t.String()
